@@ -48,6 +48,10 @@ def execute(spec, external_cancel_at=None, sample=None):
                     if hasattr(o, '_sd_calls'):
                         o._sd_calls = 0
                 # optionally the graph is edited between the two runs: one more requirement between two members
+                if 'rerun_window' in spec:
+                    # the window of the top scheduler is edited between the two runs: the second run obeys the new one
+                    b.top.jobs_window = spec['rerun_window']
+                    b.spec[b.top.name]['window'] = spec['rerun_window']
                 ed = spec.get('rerun_edge')
                 if ed:
                     S, i, j = ed
@@ -659,6 +663,37 @@ def o_c14(v):
                     return '%s: a life-cycle predicate reverted (%s -> %s)' % (name, p, (idle, sched, running, done))
             prev[name] = (idle, sched, running, done)
         # a job waiting for a slot is scheduled but not running; a body that began is running
+    # the read-only queries of the API (graph queries, listings, exports) do not change what the inspection API says
+    before_queries = {name: (o.is_idle(), o.is_scheduled(), o.is_running(), o.is_done())
+                      for name, o in v.b.objs.items() if hasattr(o, 'is_done')}
+    buf = io.StringIO()
+    with contextlib.redirect_stdout(buf):
+        for S in v.scheds():
+            sch = v.b.objs[S]
+            try:
+                list(sch.entry_jobs())
+                list(sch.exit_jobs())
+                for m in v.b.members[S]:
+                    sch.successors(v.b.objs[m])
+                    sch.predecessors(v.b.objs[m])
+                    sch.successors_downstream(v.b.objs[m])
+                list(sch.iterate_jobs())
+                sch.check_cycles()
+                sch.list()
+                sch.stats()
+                repr(sch)
+            except Exception as exc:
+                return 'a read-only query raised after the run: %r' % (exc,)
+        try:
+            v.b.top.dot_format()
+        except ValueError:
+            pass                      # the known C20 finding (hollow nested scheduler)
+    after_queries = {name: (o.is_idle(), o.is_scheduled(), o.is_running(), o.is_done())
+                     for name, o in v.b.objs.items() if hasattr(o, 'is_done')}
+    if before_queries != after_queries:
+        bad = [n for n in before_queries if before_queries[n] != after_queries[n]]
+        return '%s: read-only queries after the run changed the life-cycle predicates (%s -> %s)' % (
+            bad[0], before_queries[bad[0]], after_queries[bad[0]])
     for name, o in v.b.objs.items():
         if name == v.b.top.name:
             continue
